@@ -144,7 +144,9 @@ def run(run, tier):
     [t.join() for t in ths]
     for i, n in enumerate(names[:8]):
         if any(x != repr(solo[n]) for x in res.get(i, [])):
-            run.internal_errors.append(f"free-running threads: {n} gave a result different from its sequential one")
+            # observed, but not under a schedule the encoder produced and replayed: reported as inconclusive
+            run.obligation(f"validation.free_running.{n}", "inconclusive",
+                           f"real threads running freely: {n} gave a result different from its sequential one (not a replayed schedule)", paths=1)
     run.validated += len(ths)
     l2.describe(run, tier)
     run.bounds += [f"scenario catalogue: {len(names)} operations ({', '.join(names)}), every unordered pair including an operation paired with "
